@@ -12,12 +12,17 @@ Variable has_prot : Z -> bool.
 Variable mf : Z -> V.
 Variable sf : Z -> V.
 Variable pre : bool.
+Variable ftag : Z -> Z.
+Variable sc0 : Z -> option (Z * V).
 Variable reqs : Z -> req.
+(** a list cached at start-up for the field table the class has NOW is the right one (lists cached
+    for an earlier field table may be anything) *)
+Hypothesis sc0_ok : forall k g x, sc0 k = Some (g, x) -> g = ftag k -> x = sf k.
 
 Notation full := (full V base over1 over2 has_prot).
-Notation step := (step V base over1 over2 has_prot mf sf).
-Notation run := (run V base over1 over2 has_prot mf sf).
-Notation init := (init V base pre).
+Notation step := (step V base over1 over2 has_prot mf sf ftag).
+Notation run := (run V base over1 over2 has_prot mf sf ftag).
+Notation init := (init V base pre sc0).
 Notation alone := (alone V base over1 over2 has_prot mf sf).
 Notation state := (state V).
 Notation tstate := (tstate V).
@@ -76,7 +81,7 @@ Definition ginv (s : state) : Prop :=
                   match wlock s with Some u => building (tpc (thr s u)) = true | None => False end) /\
   (forall k r, cache s k = Some r -> r < next s /\ heap s r = full k) /\
   (forall k x, memo s k = Some x -> x = mf k) /\
-  (forall k x, scache s k = Some x -> x = sf k) /\
+  (forall k g x, scache s k = Some (g, x) -> g = ftag k -> x = sf k) /\
   (pre = true -> b_wsdl s = Some 0 /\ b_gen s = 1).
 
 Definition inv (s : state) : Prop := ginv s /\ forall t, tinv s t.
@@ -378,14 +383,20 @@ Proof.
       * other_thread T t u E.
   - (* S_get *)
     destruct Tu as (ks & Hq & Hp).
-    destruct (scache s (key_of V (thr s u))) as [x|] eqn:Hc; inversion H; subst s'; clear H.
-    + split.
+    destruct (scache s (key_of V (thr s u))) as [[g x]|] eqn:Hc;
+      [destruct (g =? ftag (key_of V (thr s u))) eqn:Eg|]; inversion H; subst s'; clear H.
+    + apply Z.eqb_eq in Eg. split.
       * gframe Gbuild Hpc u.
       * intro t. unfold tinv at 1. simpl. split_thread t u.
-        -- rewrite (Gsort _ _ Hc).
+        -- rewrite (Gsort _ _ _ Hc Eg).
            destruct (progress_consume _ _ _ S_get Hp) as [[Hd Ho]|[Hd Hp']]; rewrite Hd.
            ++ rewrite Ho, Hq. reflexivity.
            ++ exists ks. auto.
+        -- other_thread T t u E.
+    + split.
+      * gframe Gbuild Hpc u.
+      * intro t. unfold tinv at 1. simpl. split_thread t u.
+        -- simpl. exists ks. auto.
         -- other_thread T t u E.
     + split.
       * gframe Gbuild Hpc u.
@@ -397,7 +408,7 @@ Proof.
     inversion H; subst s'; clear H. split.
     + gsplit; auto.
       * gbuild Gbuild Hpc u.
-      * intros k x Hx. unfold upd in Hx. destruct (k =? key_of V (thr s u)) eqn:Ek.
+      * intros k g x Hx Hg. unfold upd in Hx. destruct (k =? key_of V (thr s u)) eqn:Ek.
         -- apply Z.eqb_eq in Ek. subst k. congruence.
         -- eauto.
     + intro t. unfold tinv at 1. simpl. split_thread t u.
